@@ -194,10 +194,10 @@ let make_oracles cfg : oracles =
     o_authperm = (cfg "auth" "0" = "1");
     o_auth = o_auth;
     (* the trace header is the extracted model of write_received() / spfreceived(SPF_NONE) *)
-    o_trace = (fun authname helo from esmtp first relayclient ->
+    o_trace = (fun authname tlsclient helo from esmtp first relayclient ->
         trace_header
           { t_remotehost = []; t_authhide = false; t_remoteip = bytes_of_str remoteip; t_remoteport = Some (bytes_of_str "1234");
-            t_helostr = helo; t_authname = authname; t_tlsclient = None; t_remoteinfo = None;
+            t_helostr = helo; t_authname = authname; t_tlsclient = tlsclient; t_remoteinfo = None;
             t_heloname = bytes_of_str "mail.example.org"; t_version = bytes_of_str "Qsmtpd 0.39dev";
             t_esmtp = esmtp; t_cipher = None; t_chunked = false; t_first = first; t_date = bytes_of_str (String.make 31 'D') }
           from (int_of_n relayclient = 1));
@@ -206,7 +206,17 @@ let make_oracles cfg : oracles =
     o_submission = (cfg "port" "25" = str_of_bytes submission_port);
     o_subm_date = bytes_of_str (String.make 31 'D');
     o_subm_stamp = bytes_of_str "1000000000.123456";
-    o_msgidhost = bytes_of_str "msgid.example.org" }
+    o_msgidhost = bytes_of_str "msgid.example.org";
+    (* the certificate stage of is_authenticated(): no TLS in this channel - tls_verify() returns 0 at once (the TLS engine
+       overrides o_tls through orc and takes o_tlsverify from the case: cfg ccert) *)
+    o_tls = false;
+    (* what tls_verify() does behind its guard in the scratch configuration of harness/tlssession/runner.py (TLS 1.3 client):
+       no control/tlsclients or no control/clientca.pem: 0; the client did not offer post-handshake authentication:
+       SSL_verify_client_post_handshake() fails, tls_out() writes 454 and -EPROTO comes back; otherwise the request goes out
+       and tls_check_cert() looks for the certificate before the client's answer can have arrived: 0 *)
+    o_tlsverify = (if cfg "tlsclients" "0" <> "1" || cfg "clientca" "0" <> "1" then TV_no
+                   else if cfg "pha" "0" <> "1" then TV_err (true, HEPROTO)
+                   else TV_no) }
 
 let show_events (evs : event list) : string =
   let closed = ref false in
